@@ -68,7 +68,9 @@ func HIncludeName() {
 	data := append(append([]byte("INCLUDE \""), s...), '"')
 	f := fs.NewFile(root, data)
 	c := NewJApiCore(f)
+	vFSMark("begin")
 	je := c.scanProject()
+	vFSMark("end")
 	safe := vSpecSafeIncludeName(string(s))
 	// What the parameter "says" is s only when the quoted text unquotes to s, which
 	// needs bytes >= 0x20 (a JSON-style unquote keeps the quotes otherwise); the
